@@ -160,6 +160,11 @@ var nilableCallees = map[string]string{
 	"github.com/beevik/etree.Element.Parent":          "returns nil for the root",
 }
 
+// textIndexExceptions: functions whose constant string index is not on request / device text (frozen, with reason).
+var textIndexExceptions = map[string]string{
+	"tree.sharedEntryAttributes.NavigateLeafRef": "the indexed string is the leafref path-arg of the schema (RFC 7950 9.9.2: a non-empty path), after StripPathElemPrefix and ParsePath accepted it; it is schema text, not request or device input",
+}
+
 // assertedFromAny: v is the pointer a type assertion / type-switch case took out of an empty-interface value.
 func assertedFromAny(v ssa.Value) *ssa.TypeAssert {
 	var ta *ssa.TypeAssert
@@ -474,6 +479,66 @@ func c20(w *core.World, r *core.Report) {
 		}
 	}
 	r.Extra["k1_sites"], r.Extra["k2_sites"], r.Extra["k3_sites"], r.Extra["k4_sites"], r.Extra["k6_sites"] = nK1, nK2, nK3, nK4, nK6
+	// K13: a constant index into a string (value[0] to look at a sign or a prefix) in the boundary scope
+	r.Rule("TEXT-INDEX", 0, "K13: a constant index into a string (s[0], s[1]) in the boundary scope is dominated by a test of len(s) or by the s != \"\" outcome of an emptiness test of the same string: value texts, key values and names taken from requests and device messages can be empty.")
+	nK13 := 0
+	for f := range scope {
+		for _, b := range f.Blocks {
+			for _, in := range b.Instrs {
+				var lkX, lkIdx ssa.Value
+				switch x := in.(type) {
+				case *ssa.Lookup:
+					lkX, lkIdx = x.X, x.Index
+				case *ssa.Index:
+					lkX, lkIdx = x.X, x.Index
+				default:
+					continue
+				}
+				lk := in
+				if bt, isB := lkX.Type().Underlying().(*types.Basic); !isB || bt.Info()&types.IsString == 0 {
+					continue
+				}
+				n, isC := core.ConstInt(lkIdx)
+				if !isC || n < 0 {
+					continue
+				}
+				if _, isConst := lkX.(*ssa.Const); isConst {
+					continue
+				}
+				nK13++
+				if reason, isExc := textIndexExceptions[core.HostKey(f)]; isExc {
+					r.Info("TEXT-INDEX", core.Site(f, "index %d into a string", n), w.InstrPos(lk), "frozen exception: "+reason)
+					continue
+				}
+				ok2 := lenGuarded(lk, lkX)
+				if !ok2 {
+					// s != "" / s == "" tests, strings.HasPrefix(s, ...) true outcome
+					for _, g := range core.GuardsOf(lk) {
+						if a, b2, eqOnTrue, isEq := core.EqTest(g.If.Cond); isEq {
+							for _, pair := range [][2]ssa.Value{{a, b2}, {b2, a}} {
+								if cs, isS := core.ConstString(pair[1]); isS && cs == "" && (sameExpr(pair[0], lkX) || core.SameObject(pair[0], lkX)) && eqOnTrue != g.CondTrue() {
+									ok2 = true
+								}
+							}
+						}
+						v, neg := core.StripNot(g.If.Cond)
+						if hc, isCall := v.(*ssa.Call); isCall && core.CalleeIs(hc, "strings.HasPrefix", "strings.HasSuffix", "strings.Contains") && g.CondTrue() != neg {
+							if a := hc.Call.Args; len(a) == 2 && (sameExpr(a[0], lkX) || core.SameObject(a[0], lkX)) {
+								if cs, isS := core.ConstString(a[1]); isS && int64(len(cs)) > n {
+									ok2 = true
+								}
+							}
+						}
+					}
+				}
+				r.Check(ok2, "TEXT-INDEX", core.Site(f, "index %d into a string", n), w.InstrPos(lk), "the string can be empty (an empty value text / key value in a request): the index panics")
+			}
+		}
+	}
+	r.Extra["k13_sites"] = nK13
+	if nK13 == 0 {
+		r.OK("TEXT-INDEX", "no constant index into a string in the boundary scope", "", "")
+	}
 	r.Extra["k12_sites"] = nK12
 	if nK12 == 0 {
 		r.OK("ASSERTED-MSG", "no field is selected on a message pointer asserted out of an any in the boundary scope", "", "")
